@@ -3,7 +3,7 @@ single random.Random so that every case replays from the seed."""
 import random
 
 ALPHA = 'ab'
-TEXT_EXTRA = [' ', ' ', '\t', '\n', ',', 'A', 'é', 'ß', '1', ':']
+TEXT_EXTRA = [' ', ' ', '\t', '\n', ',', 'A', 'é', 'ß', '1', ':', '\r\n', '\r']
 
 # palettes built to conflict: two values and the clear code of several effect groups, extended
 # colours, underline pairs, reset, unknown, verbatim multi-code, incomplete group, invalid text
@@ -19,8 +19,11 @@ VERBATIM_WF = ['[1;31', '[38;5;214', '[99', '[1', '[31', '[34', '[0', '[01', '[0
 VERBATIM_ODD = ['[38;5', '[38;2;1', '[m31', '[ 1', '[+1', '[1;', '[;', '[38;5;256', '[1~', '[4;31@', '[1?']     # ~ and @: both ends of the final-byte range
 MEMBERS = ['BOLD', 'FAINT', 'ITALIC', 'RED', 'BLUE', 'BG_RED', 'UNDERLINE', 'DOUBLE_UNDERLINE', 'NO_BOLD_FAINT',
            'FG_ORANGE', 'UL_RED', 'DUL_GRAY', 'BG_INDIAN_RED', 'FG_DEFAULT', 'GREEN']
-SETTING_TEXTS = ['1', '31', '34', '2', '38;5;214', '22', '4', '21']
-SETTING_TEXTS_ODD = ['1;4m', '4m', '1~', '1;31', '38;5', '1;;4']      # invalid / unparsable AnsiSetting objects
+SETTING_TEXTS = ['1', '31', '34', '2', '38;5;214', '22', '4', '21', '10']
+SETTING_TEXTS_ODD = ['1;4m', '4m', '1~', '1;31', '38;5', '1;;4',      # invalid / unparsable AnsiSetting objects
+                     # other spellings of the numbers of SETTING_TEXTS: different settings (different text, different flags) that a
+                     # lenient comparison - blanks stripped, int() - would take for the same
+                     ' 1', '01', '+1', '031', ' 31', '1_0', '38;5;0214', '4 ']
 BAD_FORMS = [['str', 'nosuchname'], ['int', -1], ['str', 'rgb(1,2)'], ['str', 'rgb(zz)'], ['other', True],
              ['other', False], ['str', '-5'], ['list', [['str', 'red'], ['selfref']]], ['str', '['], ['str', 'rgb(1,2,x)']]
 
@@ -45,7 +48,7 @@ class Gen:
         for _ in range(n):
             if r.random() < 0.25:
                 c = r.choice(TEXT_EXTRA)
-                if not self.unicode and ord(c) > 127:
+                if not self.unicode and not c.isascii():
                     c = 'b'
                 out.append(c)
             else:
